@@ -97,9 +97,18 @@ fn run_cases(t: &mut Tracer, family: &str, cases: &[Value], keep_input: bool) {
     let exe = std::env::current_exe().unwrap();
     let mut next = 0usize;
     while next < cases.len() {
-        let mut child = std::process::Command::new(&exe).arg("c04-child")
-            .stdin(std::process::Stdio::piped()).stdout(std::process::Stdio::piped()).stderr(std::process::Stdio::null())
-            .spawn().expect("spawn child");
+        // (the binary may be momentarily replaced by a concurrent cargo build: retry)
+        let mut child = None;
+        for attempt in 0..50 {
+            match std::process::Command::new(&exe).arg("c04-child")
+                .stdin(std::process::Stdio::piped()).stdout(std::process::Stdio::piped()).stderr(std::process::Stdio::null())
+                .spawn() {
+                Ok(c) => { child = Some(c); break; }
+                Err(_) if attempt < 49 => std::thread::sleep(std::time::Duration::from_millis(200)),
+                Err(e) => { eprintln!("cannot spawn child: {e}"); std::process::exit(2); }
+            }
+        }
+        let mut child = child.unwrap();
         let mut stdin = child.stdin.take().unwrap();
         let batch: Vec<(usize, String)> = (next..cases.len()).map(|i| (i, cases[i].to_string())).collect();
         let writer = std::thread::spawn(move || {
